@@ -250,8 +250,10 @@ class Verdict:
 
     def mismatch(self, stage, item, sigtext=None):
         """Classify one mismatch (a dict with at least fam/name/in or a free-form description)."""
+        flat = dict(item.get("case", item))
+        flat["obs"] = item.get("obs", flat.get("obs"))
         for f in self.findings:
-            if sig_matches(f["signature"], item):
+            if sig_matches(f["signature"], flat):
                 self.known[f["what"]] = self.known.get(f["what"], 0) + 1
                 return
         sigtext = sigtext or default_sig(item)
